@@ -573,9 +573,15 @@ def check_property(prop, tier, only=None, keep=False, verbose=False, jobs=None):
             if r['error']:
                 errors.append('%s: %s' % (r['unit'], r['error']))
             aux = tuple(u.get('aux_classes', AUX_CLASSES))
+            pin_fail = [f for f in r['failed'] if f['description'].startswith('dereferenced function pointer must be')]
+            for f in pin_fail:
+                errors.append('%s: indirect call sites changed, function-pointer pin no longer matches: %s in %s'
+                              % (r['unit'], f['description'], f['function']))
             prop_fail = [f for f in r['failed'] if f['class'] not in aux and not f['description'].startswith('AUX:')
-                         and f['class'] not in ('no-body', 'unwind')]
-            aux_fail = [f for f in r['failed'] if f not in prop_fail]
+                         and f['class'] not in ('no-body', 'unwind') and f not in pin_fail]
+            if pin_fail:
+                prop_fail = []   # everything after a mis-resolved indirect call is meaningless
+            aux_fail = [f for f in r['failed'] if f not in prop_fail and f not in pin_fail]
             for f in aux_fail:
                 if f['class'] == 'no-body':
                     errors.append('%s: body-less function not on the stub list: %s' % (r['unit'], f['description']))
